@@ -120,6 +120,7 @@ def connect_facts(cls):
     attrs = {n.attr for n in ast.walk(tree) if isinstance(n, ast.Attribute)}
     uses_path = "path" in attrs
     uses_port = "port" in attrs
+    uses_host = "hostname" in attrs
     cfg = None
     for n in ast.walk(tree):
         if isinstance(n, ast.Call) and isinstance(n.func, ast.Name) and n.keywords and any(
@@ -127,7 +128,7 @@ def connect_facts(cls):
             cfg = getattr(sys.modules[cls.__module__], n.func.id, None)
             if cfg is None:
                 die(f"{cls.__name__}.connect builds {n.func.id}(**qs_flat) which is not in {cls.__module__}")
-    return checks, needs_host, dport, uses_path, uses_port, cfg
+    return checks, needs_host, dport, uses_host, uses_path, uses_port, cfg
 
 
 rows = []
@@ -140,7 +141,7 @@ if not transports:
 for t in transports:
     if not (isinstance(t, type) and issubclass(t, BaseTransport)):
         die(f"registry entry {t!r} is not a BaseTransport")
-    checks, needs_host, dport, uses_path, uses_port, cfg = connect_facts(t)
+    checks, needs_host, dport, uses_host, uses_path, uses_port, cfg = connect_facts(t)
     fields = []
     if cfg is not None:
         if cfg.model_config.get("extra", "ignore") != "ignore":
@@ -148,7 +149,7 @@ for t in transports:
         for name, info in cfg.model_fields.items():
             fields.append((name, field_kind(cfg, name, info), bool(info.is_required()),
                            "" if info.is_required() else repr(info.default if not hasattr(info.default, "value") else info.default.value)))
-    rows.append((t.SCHEME, checks, needs_host, dport, uses_path, uses_port, fields))
+    rows.append((t.SCHEME, checks, needs_host, dport, uses_host, uses_path, uses_port, fields))
 rows.sort(key=lambda r: r[0])
 
 # check_scheme itself: equality with the class scheme, unknown schemes are a ValueError
@@ -189,11 +190,11 @@ body += f"def quoteSafe : List Nat := {nats(safe)}\n\n"
 body += "/-- `TransportScheme` values -/\n"
 body += "def schemes : List String := [" + ", ".join(lean_str(s) for s in schemes) + "]\n\n"
 body += ("/-- the live transport registry, by scheme: (scheme, connect calls check_scheme, a missing host is refused, default port,\n"
-         "    connect uses `.path`, connect uses `.port`, fields of the config built from `qs_flat`: (name, kind, required, default)) -/\n")
-body += "def transports : List (String × Bool × Bool × Option Nat × Bool × Bool × List (String × String × Bool × String)) := [\n"
+         "    connect uses `.hostname`, `.path`, `.port`, fields of the config built from `qs_flat`: (name, kind, required, default)) -/\n")
+body += "def transports : List (String × Bool × Bool × Option Nat × Bool × Bool × Bool × List (String × String × Bool × String)) := [\n"
 body += ",\n".join(
-    f"  ({lean_str(s)}, {b(ch)}, {b(nh)}, {optn(dp)}, {b(upath)}, {b(uport)}, [" +
+    f"  ({lean_str(s)}, {b(ch)}, {b(nh)}, {optn(dp)}, {b(uhost)}, {b(upath)}, {b(uport)}, [" +
     ", ".join(f"({lean_str(n)}, {lean_str(k)}, {b(r)}, {lean_str(d)})" for n, k, r, d in fields) + "])"
-    for s, ch, nh, dp, upath, uport, fields in rows) + "]\n\n"
+    for s, ch, nh, dp, uhost, upath, uport, fields in rows) + "]\n\n"
 body += "end Gallia.Gen.C20Tables\n"
 write_lean("C20Tables", body)
